@@ -17,18 +17,18 @@ namespace Wellen.VcdBody
 open Wellen.Bits
 
 /-- `parse_body` = token interpreter, for every byte string -/
-theorem C01_lexing (bs : List Nat) : parseBody none bs = tokenSpec bs :=
-  parseBody_eq_tokenSpec bs
+theorem C01_lexing (bs : List Nat) (nl : Bool) : parseBody none bs nl = tokenSpec bs nl :=
+  parseBody_eq_tokenSpec bs nl
 
 /-- a value token's characters come back lower-cased, whatever kind they are stored in -/
 theorem C01_chars (c : Fin 256) (v : Nat) (h : bitCharToNum c.val = some v) :
     v < 9 ∧ Gen.lookup9[v]? = some (toLower c.val) :=
   bitChar_lookup c v h
 
-/-- the timestamps accepted by the token classifier are exactly `#` + decimal digits (optional `+`) below 2^64,
-and `$dumpall` (read as time 0 — finding F24) -/
+/-- the timestamps accepted by the token classifier are exactly `#` + decimal digits (optional `+`) below 2^64
+(`$dumpall` is an ignored bracket like `$dumpvars` since fix F24) -/
 theorem C01_time_tokens (tok : List Nat) (t : Nat) (h : parseFirst tok = .time t) :
-    (∃ rest, tok = 35 :: rest ∧ parseNat rest = some t) ∨ (tok = kwDumpall ∧ t = 0) := by
+    ∃ rest, tok = 35 :: rest ∧ parseNat rest = some t := by
   unfold parseFirst at h
   cases tok with
   | nil => cases h
@@ -36,28 +36,21 @@ theorem C01_time_tokens (tok : List Nat) (t : Nat) (h : parseFirst tok = .time t
     simp only at h
     by_cases hc : c = 35
     · simp only [hc, ↓reduceIte] at h
-      left
       refine ⟨rest, by rw [hc], ?_⟩
       cases hp : parseNat rest with
       | none => rw [hp] at h; cases h
       | some t' => rw [hp] at h; simp at h; rw [h]
     · simp only [hc, ↓reduceIte] at h
-      right
       by_cases h1 : oneBitChars.contains c = true
       · simp only [h1, ↓reduceIte] at h; cases h
       · simp only [h1, Bool.false_eq_true, ↓reduceIte] at h
         by_cases h2 : multiBitChars.contains c = true
         · simp only [h2, ↓reduceIte] at h; cases h
         · simp only [h2, Bool.false_eq_true, ↓reduceIte] at h
-          by_cases h3 : c :: rest = kwDumpall
-          · simp only [h3, ↓reduceIte] at h
-            simp at h
-            exact ⟨h3, h.symm⟩
-          · simp only [h3, ↓reduceIte] at h
-            by_cases h4 : c :: rest = kwComment
-            · simp only [h4, ↓reduceIte] at h; cases h
-            · simp only [h4, ↓reduceIte] at h
-              split at h <;> cases h
+          by_cases h4 : c :: rest = kwComment
+          · simp only [h4, ↓reduceIte] at h; cases h
+          · simp only [h4, ↓reduceIte] at h
+            split at h <;> cases h
 
 /-! non-vacuity: a small body through both sides -/
 example : parseBody none [10, 35, 53, 10, 49, 33, 10, 98, 49, 48, 32, 34, 10] =
